@@ -78,6 +78,7 @@ OUTER:
 
 		replyToPings(pings)
 		pings = pings[0:0]
+		verifAt("merger.loop", m)
 
 		// ---------------------------------------------
 		// Wait for new stackDirtyTop entries and/or pings.
@@ -122,6 +123,7 @@ OUTER:
 					m.stackDirtyTopCond.Broadcast()
 				},
 				false) // The collection level lock needs to be acquired.
+		verifAt("merger.ingested", m)
 
 		stackDirtyTopPrev.Close()
 		stackDirtyMidPrev.Close()
@@ -132,6 +134,7 @@ OUTER:
 		startTime := time.Now()
 
 		mergerWasOk := m.mergerMain(stackDirtyMid, stackDirtyBase, mergeAll)
+		verifAt("merger.merged", m)
 		if !mergerWasOk {
 			continue OUTER
 		}
@@ -364,6 +367,7 @@ func (m *collection) mergerNotifyPersister() {
 
 	if waitDirtyOutgoingCh != nil {
 		atomic.AddUint64(&m.stats.TotMergerWaitOutgoingBeg, 1)
+		verifAt("merger.waitOutgoing", m)
 
 		select {
 		case <-m.stopCh:
